@@ -56,6 +56,8 @@ def symbolize(x):
         if np.isnat(x):
             return SDelta(0, TRUE)
         return SDelta(int(x.astype("timedelta64[s]").astype("int64")))
+    if isinstance(x, str):
+        return x
     if isinstance(x, dict):
         return {k: symbolize(v) for k, v in x.items()}
     if isinstance(x, list):
